@@ -415,7 +415,10 @@ package zygo
 // recover helps). Printers of containers no script can make cyclic are listed.
 // the JSON encoder (also behind msgpack) is the same kind of traversal over the same containers;
 // JsonFunction / SexpToMsgpack only enter it
-//@ cycleguard C01 SexpToJson | (*PrintState).GetSeen | (*PrintState).SetSeen | JsonFunction$1, SexpToMsgpack
+//@ cycleguard C01 SexpToJson | (*PrintState).GetSeen | (*PrintState).SetSeen |
+// ... and so is deep comparison: Compare hands arrays, lists and hashes to helpers that call it back
+// for the elements (lists cannot be made cyclic by a script)
+//@ cycleguard C01 (*Zlisp).Compare | (*PrintState).GetSeen | (*PrintState).SetSeen | (*Zlisp).comparePair
 //@ func (*PrintState).AddIndent
 //@ C01 ensures a-state-to-print-with: r0 != nil
 //@ cycleguard C01 SexpString | (*PrintState).GetSeen | (*PrintState).SetSeen | (*SexpPair).SexpString, (*SexpArraySelector).SexpString, (*SexpHashSelector).SexpString, (*SexpField).SexpString, (*SexpFunction).SexpString, (*SexpLazyArg).SexpString, (*SexpPointer).SexpString, (*SexpError).SexpString, (*RecordDefn).SexpString, (*SexpInterfaceDecl).SexpString, (*SexpClosureEnv).SexpString
